@@ -148,18 +148,45 @@ func (g *GCNF) Strings() []string {
 const maxPaths = 4096
 const maxInlineDepth = 6
 
-type gcBuilder struct {
-	p       *Prog
-	e       *Effects
+// BuildOpts selects which callees are expanded inline while the paths are enumerated.
+type BuildOpts struct {
+	Tag    string                        // cache tag
+	Inline func(callee *ssa.Function) bool // additionally expand these (known) library callees
+	Opaque func(callee *ssa.Function) bool // never expand these
+}
+
+// frame is one activation on the inline stack. Frames are immutable templates: all values live in the one env of the path
+// (no function occurs twice on the stack, so an SSA value belongs to at most one active frame).
+type frame struct {
 	fn      *ssa.Function
-	cutIdx  map[*ssa.BasicBlock]int
-	out     *GCNF
+	call    ssa.CallInstruction // call site in the parent frame (nil for the root)
+	closure *ssa.MakeClosure    // when the callee is a closure: its creation site (free variables = bindings there)
+	retBlk  *ssa.BasicBlock     // where the parent continues
+	retIdx  int
+	sig     string
+}
+
+type cutPoint struct {
+	frames []*frame
+	blk    *ssa.BasicBlock
+}
+
+type gcBuilder struct {
+	p        *Prog
+	e        *Effects
+	fn       *ssa.Function
+	cutIdx   map[string]int
+	cuts     []cutPoint
+	out      *GCNF
 	noInline map[string]bool
+	opts     BuildOpts
+	siteID   map[ssa.Instruction]int
 }
 
 type pstate struct {
 	b       *gcBuilder
 	start   *ssa.BasicBlock
+	frames  []*frame
 	env     map[ssa.Value]*Term
 	epoch   int
 	guards  []*Term
@@ -170,11 +197,11 @@ type pstate struct {
 	tver    map[string]int // stores through non-field addresses, per stored type
 	tall    map[string]int // all stores, per stored type
 	pos     token.Pos
-	onPath  map[*ssa.BasicBlock]bool
-	// inlining
+	onPath  map[string]bool
+	// expression inlining
 	depth int
-	subst map[ssa.Value]*Term // parameter substitution while inlining
-	inl   bool                // evaluating an inlined callee: every definition is read at the caller's current epoch
+	subst map[ssa.Value]*Term // parameter substitution while inlining an expression-like callee
+	inl   bool                // evaluating an inlined expression: every definition is read at the caller's current epoch
 }
 
 func (s *pstate) clone() *pstate {
@@ -183,9 +210,10 @@ func (s *pstate) clone() *pstate {
 	for k, v := range s.env {
 		c.env[k] = v
 	}
+	c.frames = append([]*frame(nil), s.frames...)
 	c.guards = append([]*Term(nil), s.guards...)
 	c.effects = append([]*Term(nil), s.effects...)
-	c.onPath = make(map[*ssa.BasicBlock]bool, len(s.onPath))
+	c.onPath = make(map[string]bool, len(s.onPath))
 	for k, v := range s.onPath {
 		c.onPath[k] = v
 	}
@@ -193,33 +221,49 @@ func (s *pstate) clone() *pstate {
 	return &c
 }
 
-// BuildGCNF computes the normal form of fn.
-func BuildGCNF(p *Prog, e *Effects, fn *ssa.Function) *GCNF {
-	b := &gcBuilder{p: p, e: e, fn: fn, cutIdx: map[*ssa.BasicBlock]int{}, out: &GCNF{Fn: fn}}
+func (s *pstate) top() *frame { return s.frames[len(s.frames)-1] }
+
+func blockKey(fr *frame, blk *ssa.BasicBlock) string { return fr.sig + "#" + strconv.Itoa(blk.Index) }
+
+func isLoopHeader(blk *ssa.BasicBlock) bool {
+	for _, pr := range blk.Preds {
+		if blk.Dominates(pr) {
+			return true
+		}
+	}
+	return false
+}
+
+// BuildGCNF computes the normal form of fn (no additional inlining beyond helpers unknown to the pinned symbol table).
+func BuildGCNF(p *Prog, e *Effects, fn *ssa.Function) *GCNF { return BuildGCNFOpts(p, e, fn, BuildOpts{}) }
+
+func BuildGCNFOpts(p *Prog, e *Effects, fn *ssa.Function, opts BuildOpts) *GCNF {
+	b := &gcBuilder{p: p, e: e, fn: fn, cutIdx: map[string]int{}, out: &GCNF{Fn: fn}, opts: opts, siteID: map[ssa.Instruction]int{}}
 	if len(fn.Blocks) == 0 {
 		b.out.Undecided = "no body"
 		return b.out
 	}
-	b.out.Cuts = append(b.out.Cuts, fn.Blocks[0])
-	b.cutIdx[fn.Blocks[0]] = 0
-	for _, blk := range fn.Blocks {
-		if blk.Index == 0 {
-			continue
-		}
-		for _, pr := range blk.Preds {
-			if blk.Dominates(pr) {
-				if _, ok := b.cutIdx[blk]; !ok {
-					b.cutIdx[blk] = len(b.out.Cuts)
-					b.out.Cuts = append(b.out.Cuts, blk)
-				}
-			}
+	root := &frame{fn: fn, sig: ""}
+	reg := func(frames []*frame, blk *ssa.BasicBlock) {
+		k := blockKey(frames[len(frames)-1], blk)
+		if _, ok := b.cutIdx[k]; !ok {
+			b.cutIdx[k] = len(b.cuts)
+			b.cuts = append(b.cuts, cutPoint{frames: frames, blk: blk})
+			b.out.Cuts = append(b.out.Cuts, blk)
 		}
 	}
-	for k, cut := range b.out.Cuts {
-		st := &pstate{b: b, start: cut, env: map[ssa.Value]*Term{}, onPath: map[*ssa.BasicBlock]bool{}}
+	reg([]*frame{root}, fn.Blocks[0])
+	for _, blk := range fn.Blocks {
+		if blk.Index != 0 && isLoopHeader(blk) {
+			reg([]*frame{root}, blk)
+		}
+	}
+	for k := 0; k < len(b.cuts); k++ { // cuts inside inlined callees are discovered while walking
+		cut := b.cuts[k]
+		st := &pstate{b: b, start: cut.blk, frames: append([]*frame(nil), cut.frames...), env: map[ssa.Value]*Term{}, onPath: map[string]bool{}}
 		if k != 0 {
 			n := 0
-			for _, in := range cut.Instrs {
+			for _, in := range cut.blk.Instrs {
 				ph, ok := in.(*ssa.Phi)
 				if !ok {
 					break
@@ -228,8 +272,12 @@ func BuildGCNF(p *Prog, e *Effects, fn *ssa.Function) *GCNF {
 				n++
 			}
 		}
-		b.walk(st, cut, nil, k, true)
+		b.walk(st, cut.blk, nil, k, true, 0)
 		if b.out.Undecided != "" {
+			break
+		}
+		if len(b.cuts) > 64 {
+			b.out.Undecided = "more than 64 cut points after inlining"
 			break
 		}
 	}
@@ -249,47 +297,180 @@ func (b *gcBuilder) emit(st *pstate, from int, exit *Term) {
 	b.out.GCs = append(b.out.GCs, &GC{From: from, Guards: gs, Effects: append([]*Term(nil), st.effects...), Exit: exit, Pos: st.pos})
 }
 
-func (b *gcBuilder) walk(st *pstate, blk *ssa.BasicBlock, pred *ssa.BasicBlock, from int, first bool) {
+// inlinable decides whether a static library callee is expanded in place: closures and compiler-generated wrappers always,
+// helpers that the pinned symbol table does not know (introduced by a refactoring) always, known functions only on request.
+func (b *gcBuilder) inlinable(st *pstate, callee *ssa.Function) bool {
+	if callee == nil || callee.Blocks == nil || len(st.frames) >= 5 || !b.p.IsLib(callee) {
+		return false
+	}
+	for _, fr := range st.frames {
+		if fr.fn == callee {
+			return false // recursion
+		}
+	}
+	if b.opts.Opaque != nil && b.opts.Opaque(callee) {
+		return false
+	}
+	if callee.Parent() != nil || strings.Contains(callee.Synthetic, "wrapper") || strings.Contains(callee.Synthetic, "thunk") {
+		return true
+	}
+	if callee.Synthetic != "" {
+		return false // package initialisers
+	}
+	if b.opts.Inline != nil && b.opts.Inline(callee) {
+		return true
+	}
+	return !b.p.KnownFunc(callee)
+}
+
+// resolveFunc follows a func-typed value through parameters and free variables of the inline stack to its definition.
+func (st *pstate) resolveFunc(v ssa.Value, depth int) (*ssa.Function, *ssa.MakeClosure) {
+	if depth > 8 {
+		return nil, nil
+	}
+	v = stripChange(v)
+	switch x := v.(type) {
+	case *ssa.Function:
+		return x, nil
+	case *ssa.MakeClosure:
+		if f, ok := x.Fn.(*ssa.Function); ok {
+			return f, x
+		}
+	case *ssa.Parameter:
+		fi := st.frameIndexOf(x.Parent())
+		if fi > 0 {
+			fr := st.frames[fi]
+			for i, p := range fr.fn.Params {
+				if p == x {
+					if a := st.actualArg(fr, i); a != nil {
+						return st.resolveFunc(a, depth+1)
+					}
+				}
+			}
+		}
+	case *ssa.FreeVar:
+		fi := st.frameIndexOf(x.Parent())
+		if fi > 0 && st.frames[fi].closure != nil {
+			for j, fv := range x.Parent().FreeVars {
+				if fv == x && j < len(st.frames[fi].closure.Bindings) {
+					return st.resolveFunc(st.frames[fi].closure.Bindings[j], depth+1)
+				}
+			}
+		}
+	}
+	return nil, nil
+}
+
+func (st *pstate) frameIndexOf(fn *ssa.Function) int {
+	for i := len(st.frames) - 1; i >= 0; i-- {
+		if st.frames[i].fn == fn {
+			return i
+		}
+	}
+	return -1
+}
+
+// actualArg: the SSA value bound to parameter i of an inlined frame (in its caller's frame).
+func (st *pstate) actualArg(fr *frame, i int) ssa.Value {
+	if fr.call == nil {
+		return nil
+	}
+	cc := fr.call.Common()
+	args := cc.Args
+	if fr.closure != nil || (!cc.IsInvoke() && StaticCallee(cc) == nil) {
+		// dynamic call of a closure / func value: the call's arguments are the parameters
+		if i < len(args) {
+			return args[i]
+		}
+		return nil
+	}
+	if i < len(args) {
+		return args[i]
+	}
+	return nil
+}
+
+// enterCall pushes a frame for callee and walks its body; the parent continues after the call when the callee returns.
+func (b *gcBuilder) enterCall(st *pstate, call ssa.CallInstruction, callee *ssa.Function, clo *ssa.MakeClosure, blk *ssa.BasicBlock, idx int, from int) {
+	id, ok := b.siteID[call]
+	if !ok {
+		id = len(b.siteID) + 1
+		b.siteID[call] = id
+	}
+	fr := &frame{fn: callee, call: call, closure: clo, retBlk: blk, retIdx: idx + 1, sig: st.top().sig + "/" + strconv.Itoa(id)}
+	// forget what an earlier activation of the same callee left in the environment
+	for _, cb := range callee.Blocks {
+		for _, in := range cb.Instrs {
+			if v, ok := in.(ssa.Value); ok {
+				delete(st.env, v)
+			}
+		}
+	}
+	st.frames = append(st.frames, fr)
+	b.walk(st, callee.Blocks[0], nil, from, true, 0)
+}
+
+func (b *gcBuilder) walk(st *pstate, blk *ssa.BasicBlock, pred *ssa.BasicBlock, from int, first bool, startIdx int) {
 	if b.out.Undecided != "" {
 		return
 	}
-	if k, isCut := b.cutIdx[blk]; isCut && !first {
-		// reached a cut point: exit with the φ assignments of this edge
-		var assigns []*Term
-		pi := predIndex(blk, pred)
-		for _, in := range blk.Instrs {
-			ph, ok := in.(*ssa.Phi)
-			if !ok {
-				break
+	fr := st.top()
+	if startIdx == 0 {
+		key := blockKey(fr, blk)
+		isCut := false
+		k := 0
+		if len(st.frames) > 1 && isLoopHeader(blk) {
+			// a loop inside an inlined callee: a cut point of its own, discovered here
+			if _, ok := b.cutIdx[key]; !ok {
+				b.cutIdx[key] = len(b.cuts)
+				b.cuts = append(b.cuts, cutPoint{frames: append([]*frame(nil), st.frames...), blk: blk})
+				b.out.Cuts = append(b.out.Cuts, blk)
 			}
-			assigns = append(assigns, st.term(ph.Edges[pi]))
 		}
-		b.emit(st, from, nodeL("goto", strconv.Itoa(k), assigns...))
-		return
-	}
-	if st.onPath[blk] {
-		b.out.Undecided = "irreducible control flow (cycle without a dominating header) in " + b.p.FuncKey(b.fn)
-		return
-	}
-	st.onPath[blk] = true
-	// resolve φs of a non-cut block from the incoming edge (parallel assignment)
-	if !first && pred != nil {
-		pi := predIndex(blk, pred)
-		var phis []*ssa.Phi
-		var vals []*Term
-		for _, in := range blk.Instrs {
-			ph, ok := in.(*ssa.Phi)
-			if !ok {
-				break
+		if kk, ok := b.cutIdx[key]; ok {
+			isCut, k = true, kk
+		}
+		if isCut && !(first && len(st.frames) == len(b.cuts[from].frames) && b.cuts[from].blk == blk && k == from) {
+			// reached a cut point: exit with the φ assignments of this edge
+			var assigns []*Term
+			if pred != nil {
+				pi := predIndex(blk, pred)
+				for _, in := range blk.Instrs {
+					ph, ok := in.(*ssa.Phi)
+					if !ok {
+						break
+					}
+					assigns = append(assigns, st.term(ph.Edges[pi]))
+				}
 			}
-			phis = append(phis, ph)
-			vals = append(vals, st.term(ph.Edges[pi]))
+			b.emit(st, from, nodeL("goto", strconv.Itoa(k), assigns...))
+			return
 		}
-		for i, ph := range phis {
-			st.env[ph] = vals[i]
+		if st.onPath[key] {
+			b.out.Undecided = "irreducible control flow (cycle without a dominating header) in " + b.p.FuncKey(b.fn)
+			return
+		}
+		st.onPath[key] = true
+		// resolve φs of a non-cut block from the incoming edge (parallel assignment)
+		if pred != nil {
+			pi := predIndex(blk, pred)
+			var phis []*ssa.Phi
+			var vals []*Term
+			for _, in := range blk.Instrs {
+				ph, ok := in.(*ssa.Phi)
+				if !ok {
+					break
+				}
+				phis = append(phis, ph)
+				vals = append(vals, st.term(ph.Edges[pi]))
+			}
+			for i, ph := range phis {
+				st.env[ph] = vals[i]
+			}
 		}
 	}
-	for _, in := range blk.Instrs {
+	for idx := startIdx; idx < len(blk.Instrs); idx++ {
+		in := blk.Instrs[idx]
 		switch x := in.(type) {
 		case *ssa.Phi:
 			continue
@@ -297,9 +478,9 @@ func (b *gcBuilder) walk(st *pstate, blk *ssa.BasicBlock, pred *ssa.BasicBlock, 
 			c := st.term(x.Cond)
 			if bv, ok := c.constBool(); ok {
 				if bv {
-					b.walk(st, blk.Succs[0], blk, from, false)
+					b.walk(st, blk.Succs[0], blk, from, false, 0)
 				} else {
-					b.walk(st, blk.Succs[1], blk, from, false)
+					b.walk(st, blk.Succs[1], blk, from, false, 0)
 				}
 				return
 			}
@@ -312,16 +493,32 @@ func (b *gcBuilder) walk(st *pstate, blk *ssa.BasicBlock, pred *ssa.BasicBlock, 
 				if _, feasible := normalizeGuards(s2.guards); !feasible {
 					continue
 				}
-				b.walk(s2, blk.Succs[i], blk, from, false)
+				b.walk(s2, blk.Succs[i], blk, from, false, 0)
 			}
 			return
 		case *ssa.Jump:
-			b.walk(st, blk.Succs[0], blk, from, false)
+			b.walk(st, blk.Succs[0], blk, from, false, 0)
 			return
 		case *ssa.Return:
 			var rs []*Term
 			for _, r := range x.Results {
 				rs = append(rs, st.term(r))
+			}
+			if len(st.frames) > 1 {
+				// return from an inlined callee: bind the result in the parent and continue there
+				fr := st.top()
+				st.frames = st.frames[:len(st.frames)-1]
+				if v, ok := fr.call.(ssa.Value); ok {
+					switch len(rs) {
+					case 0:
+					case 1:
+						st.env[v] = rs[0]
+					default:
+						st.env[v] = node("tuple", rs...)
+					}
+				}
+				b.walk(st, fr.retBlk, nil, from, false, fr.retIdx)
+				return
 			}
 			if !st.pos.IsValid() {
 				st.pos = x.Pos()
@@ -331,10 +528,52 @@ func (b *gcBuilder) walk(st *pstate, blk *ssa.BasicBlock, pred *ssa.BasicBlock, 
 		case *ssa.Panic:
 			b.emit(st, from, node("panic"))
 			return
+		case *ssa.Call:
+			// expand helpers unknown to the pinned tree, closures and bound-method wrappers in place
+			callee := StaticCallee(&x.Call)
+			var clo *ssa.MakeClosure
+			if callee == nil && !x.Call.IsInvoke() {
+				if _, isB := x.Call.Value.(*ssa.Builtin); !isB {
+					callee, clo = st.resolveFunc(x.Call.Value, 0)
+				}
+			} else if mc, ok := x.Call.Value.(*ssa.MakeClosure); ok {
+				clo = mc
+			}
+			if callee != nil && b.inlinable(st, callee) && !(clo == nil && st.pureExprCallee(callee)) {
+				b.enterCall(st, x, callee, clo, blk, idx, from)
+				return
+			}
+			st.exec(in)
 		default:
 			st.exec(in)
 		}
 	}
+}
+
+// pureExprCallee: the callee is handled (better) by expression inlining.
+func (s *pstate) pureExprCallee(callee *ssa.Function) bool {
+	sum := s.b.e.Sum[callee]
+	pure := sum != nil && len(sum.W) == 0 && sum.Out == nil && len(sum.Undecided) == 0 && len(sum.FreshInto) == 0 && len(sum.Keep) == 0
+	if !pure {
+		return false
+	}
+	nret := 0
+	for _, b := range callee.Blocks {
+		if isLoopHeader(b) {
+			return false
+		}
+		for _, in := range b.Instrs {
+			switch x := in.(type) {
+			case *ssa.Return:
+				nret++
+			case *ssa.Phi:
+				if x.Comment != "&&" && x.Comment != "||" {
+					return false
+				}
+			}
+		}
+	}
+	return nret == 1 && len(callee.Blocks) <= 8
 }
 
 func predIndex(blk, pred *ssa.BasicBlock) int {
@@ -437,14 +676,24 @@ func (s *pstate) term(v ssa.Value) *Term {
 	case *ssa.Const:
 		return constTerm(x)
 	case *ssa.Parameter:
+		fi := s.frameIndexOf(x.Parent())
 		for i, p := range x.Parent().Params {
 			if p == x {
+				if fi > 0 {
+					if a := s.actualArg(s.frames[fi], i); a != nil {
+						return s.term(a)
+					}
+				}
 				return leaf("p", strconv.Itoa(i))
 			}
 		}
 	case *ssa.FreeVar:
+		fi := s.frameIndexOf(x.Parent())
 		for i, p := range x.Parent().FreeVars {
 			if p == x {
+				if fi > 0 && s.frames[fi].closure != nil && i < len(s.frames[fi].closure.Bindings) {
+					return s.term(s.frames[fi].closure.Bindings[i])
+				}
 				return leaf("fv", strconv.Itoa(i))
 			}
 		}
@@ -456,15 +705,17 @@ func (s *pstate) term(v ssa.Value) *Term {
 		return leaf("builtin", x.Name())
 	case *ssa.Phi:
 		// a φ of a block that is neither on this path nor the start header: opaque symbol
-		if k, ok := s.b.cutIdx[x.Block()]; ok {
-			n := 0
-			for _, in := range x.Block().Instrs {
-				if in == ssa.Instruction(x) {
-					break
+		if fi := s.frameIndexOf(x.Parent()); fi >= 0 {
+			if k, ok := s.b.cutIdx[blockKey(s.frames[fi], x.Block())]; ok {
+				n := 0
+				for _, in := range x.Block().Instrs {
+					if in == ssa.Instruction(x) {
+						break
+					}
+					n++
 				}
-				n++
+				return leaf("φ", fmt.Sprintf("%d.%d", k, n))
 			}
-			return leaf("φ", fmt.Sprintf("%d.%d", k, n))
 		}
 		return leaf("φout", x.Comment)
 	}
@@ -526,7 +777,11 @@ func fieldNameOf(fa *ssa.FieldAddr) string {
 func (s *pstate) eval(v ssa.Value) *Term {
 	switch x := v.(type) {
 	case *ssa.Alloc:
-		return leaf("new", x.Comment+strconv.Itoa(allocOrdinal(x)))
+		name := x.Comment + strconv.Itoa(allocOrdinal(x))
+		if fi := s.frameIndexOf(x.Parent()); fi > 0 {
+			name += "@" + s.frames[fi].sig // an allocation of an inlined callee: one name per call site
+		}
+		return leaf("new", name)
 	case *ssa.MakeSlice:
 		s.allocN++
 		return nodeL("makeslice", strconv.Itoa(s.allocN), s.term(x.Len), s.term(x.Cap))
@@ -830,7 +1085,7 @@ func (s *pstate) inline(callee *ssa.Function, args []*Term) (*Term, bool) {
 	if ret == nil {
 		return nil, false
 	}
-	in := &pstate{b: s.b, env: map[ssa.Value]*Term{}, epoch: s.epoch, depth: s.depth + 1, subst: map[ssa.Value]*Term{}, onPath: map[*ssa.BasicBlock]bool{}, inl: true,
+	in := &pstate{b: s.b, env: map[ssa.Value]*Term{}, epoch: s.epoch, depth: s.depth + 1, subst: map[ssa.Value]*Term{}, onPath: map[string]bool{}, inl: true,
 		calls: s.calls, fver: s.fver, tver: s.tver, tall: s.tall}
 	for i, prm := range callee.Params {
 		if i < len(args) {
